@@ -643,7 +643,9 @@ class SpectralDensity(DFunction, UnitsManaged):
         newpars = []
         for prms in self.params:
             
-            #params = self.params.copy()
+            # work on a copy: a request must not change the components
+            # of the spectral density itself
+            prms = dict(prms)
             if temperature is not None:
                 prms["T"] = temperature
     
